@@ -871,3 +871,31 @@ Q(name="e2_set_peer_params", props=["C05", "C06", "C13", "C08"], func=r"connecti
   functions=["Connection::set_peer_params"], pre=lambda c: "true", post=spp_post,
   bounds="every received parameter set: all eleven integer parameters are stored unchanged, StreamsState::set_params gets the received set, MTU discovery is told min(max_udp_payload_size, 65535), the idle timeout is negotiated against the received max_idle_timeout; callees opaque (covered by streams / mtud / negotiate_idle obligations)",
   replay=("conn_set_peer_params_native", lambda m: [dict(mups=1200), dict(mups=1452), dict(mups=65535), dict(mups=65536), dict(mups=70000)]))
+
+
+# ------------------------------------------------------------------ C05: an ACK releases send-window share exactly once (reset streams were settled at reset time)
+def rao_post(c, p):
+    st = p.p.state
+    UD = "*_1.%d" % c.field("connection/streams/state.rs", "StreamsState", "unacked_data")
+    ir = p.called(r"Send::is_reset$")
+    ack = [x for x in st.calls if re.search(r"Send::ack$", x[0])]
+    delta = "(bvsub %s %s)" % (c.inp("_2.1.1", BV64), c.inp("_2.1.0", BV64))
+    first_havoc = next((x for x in st.calls if x[3] is not None and re.search(r"Send::ack$|stream_freed$|push_back|remove", x[0])), None)
+    view = _Snap(st, first_havoc[3]) if first_havoc else st
+    now = c.ex.read_key(view, UD, BV64).t
+    if ack:
+        if len(ack) != 1 or len(ir) != 1:
+            return "false"
+        return and_(not_(ir[0][2]), eq(now, "(bvsub %s %s)" % (c.inp(UD, BV64), delta)))
+    # no ack processing: unknown stream, closed stream or reset stream - nothing is released
+    conj = [eq(now, c.inp(UD, BV64))]
+    if ir:
+        conj.append(ir[0][2])
+    return and_(*conj)
+
+
+Q(name="e2_received_ack_of", props=["C05"], func=r"state\.rs:144:1[^>]*>::received_ack_of$",
+  pure=[r"Send::is_reset$"], allowed_panics=r"attempt to compute",
+  functions=["StreamsState::received_ack_of"], pre=lambda c: "true", post=rao_post,
+  bounds="every outcome of the stream lookup (hash map opaque), of Send::is_reset and of Send::ack, every acknowledged range: unacked_data is reduced by the range length exactly when the stream exists and is not reset, and is untouched otherwise",
+  replay=("streams_received_ack_of_native", lambda m: [dict(reset=0), dict(reset=1)]))
